@@ -51,35 +51,43 @@ type Ctx struct {
 
 // Run-wide state (one property per process).
 type runState struct {
-	prop        string
-	tier        string
-	seed        int64
-	shard       int
-	out         string
-	replayDir   string
-	known       []Known
-	knownHit    map[string]int64
-	cases       int64
-	executions  int64
-	nontrivial  int64
-	steps       int64
-	probes      map[string]int64
-	faults      map[string]int64
-	bitmap      []uint64
-	bitmapBits  uint64
-	samples     []any
-	sampleAt    map[int64]bool
-	lastFail    *failRecord
-	viaCx       bool
-	start       time.Time
-	evlog       *bufio.Writer
-	evlogFile   *os.File
-	progress    atomic.Int64
-	baselineOK  atomic.Bool // the non-simulated baseline of the case in progress has completed
-	inCase      atomic.Bool
-	caseRender  atomic.Value // func() any of the case in progress
-	shrinking   bool
-	extra       map[string]any
+	prop       string
+	tier       string
+	seed       int64
+	shard      int
+	out        string
+	replayDir  string
+	known      []Known
+	knownHit   map[string]int64
+	cases      int64
+	executions int64
+	nontrivial int64
+	steps      int64
+	probes     map[string]int64
+	faults     map[string]int64
+	bitmap     []uint64
+	bitmapBits uint64
+	samples    []any
+	sampleAt   map[int64]bool
+	lastFail   *failRecord
+	viaCx      bool
+	start      time.Time
+	evlog      *bufio.Writer
+	evlogFile  *os.File
+	progress   atomic.Int64
+	baselineOK atomic.Bool // the non-simulated baseline of the case in progress has completed
+	inCase     atomic.Bool
+	caseRender atomic.Value // func() any of the case in progress
+	shrinking  bool
+	extra      map[string]any
+	survey     map[string]*surveyEntry
+}
+
+type surveyEntry struct {
+	Count   int64  `json:"count"`
+	Detail  string `json:"detail"`
+	Example any    `json:"example"`
+	keyLen  int
 }
 
 type failRecord struct {
@@ -120,6 +128,9 @@ func Main(t *testing.T, prop string, body func(cx *Ctx)) {
 	}
 	if rs.tier == "" {
 		rs.tier = "quick"
+	}
+	if os.Getenv("VERIF_SURVEY") != "" {
+		rs.survey = map[string]*surveyEntry{}
 	}
 	bits := uint64(1) << 24
 	if rs.tier == "thorough" {
@@ -197,7 +208,7 @@ func loadKnown(path, prop string) {
 }
 
 func (k *Known) matches(f *Failure) bool {
-	if k.Class != f.Class {
+	if !globMatch(k.Class, f.Class) {
 		return false
 	}
 	for key, want := range k.Match {
@@ -249,18 +260,18 @@ func (cx *Ctx) Render(f func() any) {
 func (cx *Ctx) BaselineDone() { rs.baselineOK.Store(true) }
 
 // Exec counts one execution of real ojg code; Steps counts logical steps (reads, writes, sim points).
-func (cx *Ctx) Exec()         { rs.executions++; rs.progress.Add(1) }
-func (cx *Ctx) Steps(n int)   { cx.steps += int64(n) }
-func Probe(name string)       { rs.probes[name]++ }
+func (cx *Ctx) Exec()       { rs.executions++; rs.progress.Add(1) }
+func (cx *Ctx) Steps(n int) { cx.steps += int64(n) }
+func Probe(name string)     { rs.probes[name]++ }
 func ProbeN(name string, n int) {
 	if n > 0 {
 		rs.probes[name] += int64(n)
 	}
 }
-func Fault(kind string)       { rs.faults[kind]++ }
-func Extra(k string, v any)   { rs.extra[k] = v }
-func Tier() string            { return rs.tier }
-func Thorough() bool          { return rs.tier == "thorough" }
+func Fault(kind string)     { rs.faults[kind]++ }
+func Extra(k string, v any) { rs.extra[k] = v }
+func Tier() string          { return rs.tier }
+func Thorough() bool        { return rs.tier == "thorough" }
 
 // Event appends a line to the determinism event log (only when VERIF_EVLOG is set).
 func (cx *Ctx) Event(format string, args ...any) {
@@ -308,6 +319,33 @@ func (cx *Ctx) finish() {
 			unknown = f
 		}
 	}
+	if unknown != nil && rs.survey != nil {
+		// survey mode (triage aid): count every unlisted class, keep the smallest example, never fail
+		for i := range cx.failures {
+			f := &cx.failures[i]
+			listed := false
+			for j := range rs.known {
+				if rs.known[j].matches(f) {
+					listed = true
+				}
+			}
+			if listed {
+				continue
+			}
+			e := rs.survey[f.Class]
+			if e == nil {
+				e = &surveyEntry{}
+				rs.survey[f.Class] = e
+			}
+			e.Count++
+			if cx.render != nil && (e.Example == nil || len(cx.key) < e.keyLen) {
+				e.Example = cx.render()
+				e.Detail = f.Detail
+				e.keyLen = len(cx.key)
+			}
+		}
+		return
+	}
 	if unknown != nil {
 		fr := &failRecord{Class: unknown.Class, Detail: unknown.Detail, Attrs: unknown.Attrs}
 		if cx.render != nil {
@@ -320,27 +358,28 @@ func (cx *Ctx) finish() {
 }
 
 type result struct {
-	Property    string           `json:"property"`
-	Status      string           `json:"status"` // ok | violation | error
-	Error       string           `json:"error,omitempty"`
-	Tier        string           `json:"tier"`
-	Seed        int64            `json:"seed"`
-	Shard       int              `json:"shard"`
-	Cases       int64            `json:"cases"`
-	Executions  int64            `json:"executions"`
-	NonTrivial  int64            `json:"nontrivial"`
-	Steps       int64            `json:"steps"`
-	Probes      map[string]int64 `json:"probes"`
-	Faults      map[string]int64 `json:"faults"`
-	KnownHit    map[string]int64 `json:"known_hit"`
-	Samples     []any            `json:"samples"`
-	BitmapFile  string           `json:"bitmap_file"`
-	BitmapBits  uint64           `json:"bitmap_bits"`
-	Replay      string           `json:"replay,omitempty"`
-	Class       string           `json:"class,omitempty"`
-	Detail      string           `json:"detail,omitempty"`
-	WallS       float64          `json:"wall_s"`
-	Extra       map[string]any   `json:"extra,omitempty"`
+	Property   string                  `json:"property"`
+	Status     string                  `json:"status"` // ok | violation | error
+	Error      string                  `json:"error,omitempty"`
+	Tier       string                  `json:"tier"`
+	Seed       int64                   `json:"seed"`
+	Shard      int                     `json:"shard"`
+	Cases      int64                   `json:"cases"`
+	Executions int64                   `json:"executions"`
+	NonTrivial int64                   `json:"nontrivial"`
+	Steps      int64                   `json:"steps"`
+	Probes     map[string]int64        `json:"probes"`
+	Faults     map[string]int64        `json:"faults"`
+	KnownHit   map[string]int64        `json:"known_hit"`
+	Samples    []any                   `json:"samples"`
+	BitmapFile string                  `json:"bitmap_file"`
+	BitmapBits uint64                  `json:"bitmap_bits"`
+	Replay     string                  `json:"replay,omitempty"`
+	Class      string                  `json:"class,omitempty"`
+	Detail     string                  `json:"detail,omitempty"`
+	WallS      float64                 `json:"wall_s"`
+	Extra      map[string]any          `json:"extra,omitempty"`
+	Survey     map[string]*surveyEntry `json:"survey,omitempty"`
 }
 
 func writeResult(status, errText string) {
@@ -351,7 +390,7 @@ func writeResult(status, errText string) {
 		Property: rs.prop, Status: status, Error: errText, Tier: rs.tier, Seed: rs.seed, Shard: rs.shard,
 		Cases: rs.cases, Executions: rs.executions, NonTrivial: rs.nontrivial, Steps: rs.steps,
 		Probes: rs.probes, Faults: rs.faults, KnownHit: rs.knownHit, Samples: rs.samples,
-		BitmapBits: rs.bitmapBits, WallS: time.Since(rs.start).Seconds(), Extra: rs.extra,
+		BitmapBits: rs.bitmapBits, WallS: time.Since(rs.start).Seconds(), Extra: rs.extra, Survey: rs.survey,
 	}
 	bm := rs.out + ".bitmap"
 	if f, err := os.Create(bm); err == nil {
@@ -478,4 +517,24 @@ func Weighted(t *rapid.T, label string, weights ...int) int {
 		v -= w
 	}
 	return len(weights) - 1
+}
+
+// globMatch: '*' matches any run of characters (including '/'); everything else is literal.
+func globMatch(pat, s string) bool {
+	parts := strings.Split(pat, "*")
+	if len(parts) == 1 {
+		return pat == s
+	}
+	if !strings.HasPrefix(s, parts[0]) {
+		return false
+	}
+	s = s[len(parts[0]):]
+	for i := 1; i < len(parts)-1; i++ {
+		j := strings.Index(s, parts[i])
+		if j < 0 {
+			return false
+		}
+		s = s[j+len(parts[i]):]
+	}
+	return strings.HasSuffix(s, parts[len(parts)-1])
 }
